@@ -94,12 +94,29 @@ async def _periodic(rng, d):
             k += 1
             peer.send({'type': 'KEEPALIVE', 'sid': 0, 'respond': True, 'data': b'ping%d' % k, 'position': 0})
 
+    async def traffic():
+        # steady outbound traffic over a link whose writes take time: the send queue is never empty when the
+        # keepalive timer fires
+        from ..apps import make_payload, DIR_REQUEST
+        # bursts of 8 frames every P/4, each write taking P/40: the queue holds frames 80 % of the time and
+        # drains completely between bursts, so a queued KEEPALIVE waits at most 0.2 P
+        rw.link.knobs['c'].drain = ('virtual', d['P'] / 40.0)
+        k = 0
+        while True:
+            for _ in range(8):
+                k += 1
+                rw.ep.fire_and_forget(make_payload(1000 + k, DIR_REQUEST, 0, 12, 0))
+            await asyncio.sleep(d['P'] / 4.0)
+
     ack_task = asyncio.ensure_future(acker())
     ping_task = asyncio.ensure_future(pinger(*d['ping'])) if d.get('ping') else None
+    traffic_task = asyncio.ensure_future(traffic()) if d.get('traffic') else None
     await asyncio.sleep(d['duration'])
     ack_task.cancel()
     if ping_task is not None:
         ping_task.cancel()
+    if traffic_task is not None:
+        traffic_task.cancel()
     # arrivals at the client: its own tap
     ka_recv = [e[0] for e in rw.link.tap.events if e[1] == 'c' and e[2] == 'recv' and e[3]['type'] == 'KEEPALIVE']
     ka_sent = [e[0] for e in rw.link.tap.events if e[1] == 'c' and e[2] == 'send' and e[3]['type'] == 'KEEPALIVE'
@@ -160,6 +177,7 @@ def run_case(gen, idx, rng, tier):
     d = {'P': P, 'L': L, 'ack': list(ack), 'link': rng.choice(['bytes', 'messages']),
          'link_delay': rng.choice([0, 0, 1e-4, 1e-3]), 'duration': max(12 * P, 4 * L) + rng.choice([0, P / 2])}
     d['ack'] = ack
+    d['traffic'] = rng.random() < 0.2
     if rng.random() < 0.3:
         # server-originated pings at intervals below / around / above the lifetime, for ever or until some time
         d['ping'] = (L * rng.choice([0.3, 0.9, 1.0, 1.2, 2.5]), rng.choice([None, None, rng.choice([1, 3, 6]) * P]))
@@ -173,18 +191,27 @@ def run_case(gen, idx, rng, tier):
             wit.append({'clause': 'echo-missing' if len(got) < len(want) else 'unsolicited-or-duplicate-echo',
                         'detail': {'case': public, 'pings_received': len(want), 'echoes_sent': len(got)}})
     eps = 1e-3 + 2 * d['link_delay']
+    if d.get('traffic'):
+        eps += P / 2.0      # a KEEPALIVE may wait behind the frames already queued (a handful of writes of P/40 each)
     # (b) periodic emission while the client considers the server alive
     first_timeout = timeouts[0][0] if timeouts else None
     sends = [t for t in ka_sent if first_timeout is None or t <= first_timeout]
     prev = t0
-    for t in sends:
+    for k, t in enumerate(sends, 1):
         gap = t - prev
         st['periods_measured'] += 1
-        if gap < P - 1e-9 or gap > P + eps:
-            wit.append({'clause': 'keepalive-period-wrong', 'detail': {'case': public, 'gap': gap, 'at': t - t0,
+        if d.get('traffic'):
+            # the k-th KEEPALIVE is due at t0 + k P and may additionally wait behind frames already queued
+            wrong = not (k * P - 1e-9 <= t - t0 <= k * P + eps)
+        else:
+            wrong = gap < P - 1e-9 or gap > P + eps
+        if wrong:
+            wit.append({'clause': 'keepalive-period-wrong', 'detail': {'case': public, 'gap': gap, 'at': t - t0, 'index': k,
                                                                          'sends_rel': [round(x - t0, 6) for x in ka_sent[:8]]}})
             break
         prev = t
+    if sends:
+        prev = sends[-1]
     alive_until = first_timeout if first_timeout is not None else t_end
     if alive_until - prev > P + eps and first_timeout is None:
         wit.append({'clause': 'keepalive-emission-stopped', 'detail': {'case': public, 'last_send_rel': prev - t0,
